@@ -5,40 +5,92 @@ import os
 
 V = os.path.dirname(os.path.dirname(os.path.abspath(__file__)))
 props = [json.loads(l) for l in open(os.path.join(V, "properties.jsonl"))]
-
-# per property: (category, technique, text, note)
+BOUNDED = (" Bounded stand-in (labelled bounded, never counted as proved): run-time contracts taken from the property statement, evaluated on the real code under real torch over "
+           "an enumerated family (operator zoo x batch shapes x sizes x dtypes x operand kinds x settings) against independent dense oracles.")
+LEAF = "symtorch kernel models (conformance-tested against real torch on every run); floats as reals; dense-backed children (modularity); signature-bounded ranks; "
 T = {
+ "C01": ("other", "contracts on the real _matmul/_t_matmul/to_dense/_transpose_nonbatch/_size + LinearOperator.matmul/Matmul.forward, symbolic execution of the unmodified source, z3 + sum-normal-form prover; bounded run-time contracts for the rest",
+         "Proved for all sizes/entries (per rank signature): shape, dtype, raise-equivalence with torch.matmul and entry-wise value (D X, D^T X incl. associativity by Fubini for nested sums) of matmul/@/_matmul/_t_matmul/to_dense/transpose for Dense, Diag, ConstantDiag, Triangular, Sum, AddedDiag, ConstantMul, Matmul, Root, SumBatch." + BOUNDED + " The bounded tier covers every class (53 zoo cases incl. nestings, user subclass, FFT/sparse/reshape kernels).",
+         LEAF + "classes with FFT / sparse / reshape-chain kernels (Toeplitz, Interpolated, Kronecker, Block*, BatchRepeat, Cat, Masked, Permutation, Kernel) only bounded"),
+ "C02": ("other", "contracts on the real dispatching __add__/__sub__/matmul/mul/div/add_diagonal/expand/... cells, symbolic execution + z3/sumnf; spec matrix of the RESULT recomputed from its constructor arguments; bounded run-time contracts for the rest",
+         "Proved (all sizes/entries, independent symbolic batch sizes so broadcasting is explored): 1399 cells of the class-pair table (19 classes) for + - @ and 20 unary/scalar/batch/diagonal operations: D(result) equals the dense expression, with raise-equivalence; multi-step programs follow by modularity." + BOUNDED + " Bounded tier: all ordered pairs of 63 cases, scalar kinds, batch manipulation, add_low_rank, cat_rows, cat, random programs of depth <= 3.",
+         LEAF + "root-decomposition based operations (operator*operator, + Root operands, add_low_rank, cat_rows, prod) only bounded; known findings listed in known_findings.json / contracts/notes/C02_known.json"),
+ "C03": ("other", "contracts on the real __getitem__ / _compute_getitem_size / per-class _get_indices and _diagonal, symbolic execution (symbolic sizes, ints, slices, index tensors of symbolic length), z3 non-linear integer arithmetic; torch indexing rule = conformance-tested model; bounded run-time contracts",
+         "Proved for all sizes and index values: LinearOperator.__getitem__ normalisation (ints incl. negative / out of range, slices, ellipsis, 1-D tensors, absorbed tensor indices; debug on and off) on a dense-backed operator for every index-kind signature of length <= 3, and _get_indices / _diagonal of 18 classes (Toeplitz |i-j|, Kronecker div/mod, BlockDiag, BlockInterleaved, Interpolated incl. the root fast path, ...) against the spec matrix." + BOUNDED,
+         LEAF + "_getitem slice overrides, Cat, Masked, Permutation, Kernel and nestings only bounded; known findings in contracts/notes/C03_known.json"),
+ "C04": ("other", "contracts: solve as the residual identity D X = B on the real solve/_solve dispatch, with leaf contracts for cholesky_solve / solve_triangular / cholesky_ex / linear_cg; symbolic settings so every method-selection path is explored; z3 + sum prover with fact bridging; bounded run-time contracts",
+         "Proved (given the leaf contracts): D X = B entry-wise, shape and dtype for Diag, ConstantDiag, Identity, Triangular (both orientations), Cholesky operators (both orientations) and, on the CG route, Dense / Sum / ConstantMul / Matmul, with max_cholesky_size and fast_computations.solves symbolic." + BOUNDED + " Bounded tier: 70 PSD cases x 15 settings combinations x rhs kinds x left factors, tolerance by the method actually taken.",
+         "LEAF CONTRACTS assumed: torch.cholesky_solve, torch.linalg.solve_triangular, torch.linalg.cholesky_ex (PD case), linear_cg (exact convergence); " + LEAF + "value on the Cholesky route of non-structured operators, Kronecker/Woodbury/block shortcuts and CG accuracy only bounded"),
+ "C05": ("other", "run-time contracts on the real code (bounded stand-in); no contract within reach decides the numeric clauses deductively",
+         "Bounded only: dense oracle for logdet / inv_quad / inv_quad_logdet on deterministic paths, exact output shapes for every flag combination, and on the stochastic path the exact Gauss-Lanczos quadrature recomputed in float64 for the probe vectors read from the autograd node (matches to 2e-7), 70 PSD cases x 11 settings combinations.",
+         "dense float64 oracles; tolerances by method; the proved tier for C05 (shape conventions, closed forms) was not built: see DESIGN section 11"),
+ "C06": ("other", "run-time contracts on the real code (bounded stand-in)",
+         "Bounded only: residuals R R^T = A, R R^T = A^-1, Q^T Q = I, Q diag(w) Q^T = A, U diag(S) V^T = A, exact triangularity and orientation of Cholesky factors, for every method value, sizes on both sides of the thresholds, through torch.linalg entry points; Lanczos roots against the orthogonal-compression oracle.",
+         "dense float64 oracles; LAPACK leaves; no proved tier (the factorisation identities need the leaf facts under summation binders): see DESIGN section 11"),
+ "C07": ("other", "run-time contracts on the real code (bounded stand-in)",
+         "Bounded only: every hand-written _bilinear_derivative against autograd of the class's own _matmul and against the dense oracle at leaf level; every differentiable entry point against autograd through the dense matrix for all subsets of leaves requiring grad, memory_efficient on/off, max_cholesky_size 0/default; 65 builders.",
+         "torch.autograd as oracle; float64; no proved tier (gradient values are identities between sums through FFT / solves): see DESIGN section 11"),
+ "C08": ("other", "run-time contracts on the real linear_cg (bounded stand-in)",
+         "Bounded only: A-norm error monotone in the budget, the sqrt(kappa) bound down to the stated floor, residual below tolerance when no warning, zero / frozen columns, linear scaling, preconditioner independence, Lanczos identities of the returned tridiagonals, error paths; spectrum families, sizes 1..64, kappa <= 1e6, f32/f64.",
+         "floating-point convergence cannot be decided by a contract within reach; LOOPCUT index-bound / frame contracts for linear_cg were not built"),
+ "C09": ("other", "run-time contracts on the real lanczos_tridiag and its consumers (bounded stand-in)",
+         "Bounded only: orthonormality, Q^T A Q = T, last-column residual, breakdown, all budgets 1..n+2, batches, multiple start vectors; consumers against the orthogonal-compression oracle.",
+         "floating-point; no proved tier"),
+ "C10": ("other", "run-time contracts on the real pivoted Cholesky and preconditioner (bounded stand-in)",
+         "Bounded only: residual PSD and zero on pivot rows/cols, greedy pivot rule, monotone trace, exactness at full rank, stopping rule, permutation validity per batch member; preconditioner closure = (L L^T + D)^-1, SPD, logdet equals dense logdet tightly, returned operator densifies to L L^T + D.",
+         "floating-point; no proved tier"),
+ "C11": ("other", "run-time contracts on the real minres / contour_integral_quad / sqrt_inv_matmul (bounded stand-in)",
+         "Bounded only: residuals for all shifts, shift-dimension rule, zero rhs, linearity, quadrature identities, sqrt_inv_matmul twice = A^-1 R, left-factor variant, f32/f64.",
+         "floating-point; no proved tier"),
+ "C12": ("other", "contracts on the real memoize primitives (ghost map), exhaustive over the finite key domain collected from the AST; AST audits of every @cached / add_to_cache site; symbolic argument-independence proof for ignore_args uses; bounded query histories",
+         "Proved/exhaustive: cached / add_to_cache / get / pop satisfy the map contract and never share an entry between different (args, kwargs); ignore_args=True only on argument-independent methods (Diag/Identity _cholesky, proved symbolically); every explicit writer/reader name is accounted for." + BOUNDED + " Bounded tier: all query histories of length <= 2 (pruned 3) over 37 query symbols on 28 PSD cases, derived operators' caches multiplied out.",
+         "pickle injective on the keyword values that occur (checked on that finite domain); validity of cached VALUES along histories and of transplanted roots only bounded; 5 root causes recorded as known findings (contracts/notes/C12_known.json)"),
+ "C13": ("other", "frame contracts: alias/ownership domain of the symbolic tensor model (views share storage, every in-place kernel emits the storage it writes), obligations on every explored path of the C01/C02/C03/C14/C16 explorations; bounded run-time _version/bitwise snapshots",
+         "Proved on every explored path (all sizes): no in-place kernel reaches caller-owned storage for matmul/_t_matmul/_get_indices of the proved classes, 17 public operations on 16-19 classes, psd_safe_cholesky." + BOUNDED + " Bounded tier: ~60 public operations and all utilities over 4 argument layouts with _version + bitwise + surrounding-buffer snapshots.",
+         LEAF + "iterative solvers, sparse/Toeplitz utilities, autograd backward passes only bounded"),
+ "C14": ("other", "contracts on the real __init__/representation/representation_tree/clone/detach/to/type/requires_grad_ executed on a generic container subclass for every argument layout of a bounded signature + per-class rebuild/convert vs the spec matrix; bounded run-time contracts",
+         "Proved per layout/class (all sizes, symbolic operator dtype unrelated to the default dtype): rebuild returns the same structure with the very same leaf objects, clone shares no storage, conversions give every floating leaf the target dtype and never touch integer/bool leaves, requires_grad reaches exactly the floating leaves; 26 real classes keep class, flags and spec matrix under rebuild/clone/detach/float/double/to." + BOUNDED,
+         LEAF + "layout signature <= 3 positional + 2 keyword arguments, nesting <= 2 (deeper by structural induction, argued in DESIGN); returned-tensor dtype of every entry point only bounded"),
+ "C15": ("other", "AST audit of the registration decorators vs the live tables; exhaustive contract of __torch_function__ over table x class hierarchy x argument forms with recorder methods; symbolic values of reflected/keyword forms; bounded run-time contracts over every table entry",
+         "Exhaustive over the finite dispatch space: tables equal their decorators, every registered name resolves with a compatible signature on every subclass, the router calls exactly the named method with the right argument order or raises NotImplementedError; proved values of 25 reflected / alpha / second-argument forms on a dense-backed operator." + BOUNDED,
+         "routing exhaustive with recorder methods (not over operand values); value of entries delegating to solve/cholesky/eigh/svd is C04-C06"),
+ "C16": ("proof", "SHADOW symbolic execution of the real _psd_safe_cholesky + LOOPCUT inductive invariant with ghost per-member jitter level; z3",
+         "All paths of the real psd_safe_cholesky/_psd_safe_cholesky are explored on a symbolic batch of symbolic size with symbolic jitter and max_tries; the retry loop is cut at an inductive invariant (Aprime = A + lvl(level(b)) I, failing members are at the current level, every lower level failed); postconditions: exact factor of A on first success, factor of exactly A + jitter*10^i I per member with minimal i, only NanError/NotPSDError escape, warning emitted, upper honoured, A never written. Signature-bounded: batch rank 0..1 (quick) / 0..2 (thorough). Bounded cross-check on real matrices.",
+         "torch.linalg.cholesky_ex leaf contract (deterministic per-member function; info==0 <=> success; finite factor); floats as reals; max_tries >= 1; out= not explored; symtorch kernel models trusted but conformance-tested"),
  "C17": ("proof", "contracts (Hoare triples + ghost at_enter) on the real settings classes; symbolic class state; z3",
          "Per-method triples init/enter/exit for every setting class and both composites are discharged by z3 for symbolic values and every None-ness signature, normal and exceptional exit, first and second use of one object, frame over all setting classes; the history property follows by induction over well-nested histories (DESIGN C17). Bounded cross-check: exhaustive native enumeration of event histories against a stack oracle.",
-         "None-ness of slots is enumerated (cannot intercept `is None`); CPython executes the real methods; history induction is a paper argument over the discharged triples."),
- "C16": ("proof", "SHADOW symbolic execution of the real _psd_safe_cholesky + LOOPCUT inductive invariant with ghost per-member jitter level; z3",
-         "All paths of the real psd_safe_cholesky/_psd_safe_cholesky are explored on a symbolic batch of symbolic size with symbolic jitter and max_tries; the retry loop is cut at an inductive invariant (Aprime = A + lvl(level(b)) I, failing members are at the current level, every lower level failed); postconditions: exact factor of A on first success, factor of exactly A + jitter*10^i I per member with minimal i, only NanError/NotPSDError escape, warning emitted, upper honoured, A never written. Signature-bounded: batch rank 0..1 (quick) / 0..2 (thorough).",
-         "torch.linalg.cholesky_ex leaf contract (deterministic per-member function; info==0 <=> success; finite factor); floats as reals; max_tries >= 1; out= not explored; symtorch kernel models are trusted but conformance-tested."),
+         "None-ness of slots is enumerated (cannot intercept `is None`); CPython executes the real methods; history induction is a paper argument over the discharged triples"),
+ "C18": ("other", "contracts: sample = R Z entry-wise with R R^T = D(op), torch.randn modelled as a fresh symbolic tensor, symbolic execution of the real samplers, z3 + sum prover; bounded run-time contracts with identity noise",
+         "Proved (all sizes, batch sizes, numbers of samples): shape (k,*batch,n), dtype, linearity in the recorded noise and R R^T = D for the Diag/ConstantDiag/Identity samplers, the generic root sampler on Root/LowRankRoot/Cholesky operators, Interpolated over a root operator and PsdSum of root operators." + BOUNDED + " Bounded tier recovers R column by column for every class, both sides of max_cholesky_size, ciq on/off.",
+         LEAF + "roots from numerical factorisations (Cholesky/Lanczos/CIQ) and the block samplers only bounded"),
+ "C19": ("other", "raise-equivalence contracts in the shape/index domain: the dense reference (conformance-tested torch model incl. error cases) is executed in the same symbolic path as the library call; z3",
+         "Proved for all sizes: the library raises whenever torch would reject, for matmul/@ on 10 classes x rhs ranks, + - @ between the class pairs of the C02 cell registry with mismatching matrix dimensions or non-broadcastable batches, tensor operands, expand, add_diagonal, integer / one-element tensor indices out of range with debug on and off; _matmul_broadcast_shape characterised totally (raises iff torch.matmul raises, same shape)." + BOUNDED,
+         LEAF + "solve / inv_quad / cat / square-only operations and long out-of-range index tensors only bounded; known findings in contracts/notes/C19_known.json"),
+ "C20": ("other", "contracts on the real toeplitz_getitem / sym_toeplitz_getitem / left_interp / inverse_permutation (symbolic execution, z3); bounded run-time contracts for FFT / sparse / QR utilities",
+         "Proved for all sizes: Toeplitz entry lookup, left_interp == W x (vector and matrix rhs, batch broadcast, width 1..2), inverse_permutation inverts a bijection in both directions (scatter as a universally quantified fact)." + BOUNDED + " Bounded tier: every utility of utils/{toeplitz,interpolation,sparse,permutation,qr,pinverse,broadcasting} and dsmm against dense definitions.",
+         LEAF + "FFT products, toeplitz(), COO utilities, stable_qr, stable_pinverse, left_t_interp, dsmm only bounded"),
 }
-DEFAULT = ("other", "run-time contracts on the real code over an enumerated operator/input family (bounded stand-in); proved tier in progress",
-           "Bounded tier only so far: contracts taken from the property statement are evaluated on the real code under real torch over a systematic family (zoo classes x batch shapes x sizes x dtypes x operand kinds) against independent dense oracles. Labelled bounded; nothing is counted as proved.",
-           "dense oracles of contracts/zoo.py; float tolerances; enumerated family only")
-
-CLAIMED = ["C01", "C12", "C16", "C17", "C18", "C20"]  # only what currently passes on the unchanged tree
+CLAIMED = sorted(T)
 checks, na = [], []
 for p in props:
     pid = p["id"]
-    have = any(os.path.exists(os.path.join(V, "contracts", f)) for f in (f"{pid}.py", f"sh_{pid}.py", f"rtc_{pid}.py"))
-    if not have or pid not in CLAIMED:
-        na.append({"property_id": pid, "reason": "check not built yet (build in progress; see DESIGN.md section 8)"})
+    if pid not in CLAIMED:
+        na.append({"property_id": pid, "reason": "check not built"})
         continue
-    cat, tech, text, note = T.get(pid, DEFAULT)
+    cat, tech, text, note = T[pid]
+    sh = os.path.exists(os.path.join(V, "contracts", f"sh_{pid}.py")) or pid == "C17"
     checks.append({
         "property_id": pid,
         "quick_cmd": f"./check {pid} --tier quick",
         "thorough_cmd": f"./check {pid} --tier thorough",
         "evidence_file": f"evidence/{pid}.json",
         "replay_cmd_template": f"./check {pid} --replay {{path}}",
-        "engine": "shadow+rtc" if os.path.exists(os.path.join(V, "contracts", f"sh_{pid}.py")) or pid == "C17" else "rtc",
-        "level_claimed": {"category": cat, "text": text, "design_ref": f"DESIGN.md section 4, {pid}"},
+        "engine": "shadow+rtc" if sh else "rtc",
+        "level_claimed": {"category": cat, "text": text, "design_ref": f"DESIGN.md sections 4 ({pid}) and 10"},
         "level_note": note,
         "technique": tech,
     })
+shadow_ids = [c["property_id"] for c in checks if c["engine"].startswith("shadow")]
 m = {
  "version": 1,
  "setup_cmd": "./setup.sh",
@@ -46,13 +98,14 @@ m = {
            "baseline_off_cmd": "cd /repo && /venv/bin/python -m pytest -ra -q -p no:cacheprovider --timeout=900 --continue-on-collection-errors",
            "source_commits": [], "add_only": True},
  "engines": [
-   {"name": "shadow", "path": "engine/", "serves_properties": ["C16", "C17"], "kind_free_text": "symbolic execution of the unmodified /repo source (shadow import with a symbolic torch model), exhaustive path exploration, obligations discharged by z3 (cvc5 second opinion)"},
-   {"name": "loopcut", "path": "engine/loopcut.py", "serves_properties": ["C16"], "kind_free_text": "mechanical AST loop cutting at sidecar inductive invariants (establish/preserve/use)"},
-   {"name": "rtc", "path": "contracts/rtc_*.py, contracts/zoo.py", "serves_properties": [c["property_id"] for c in checks], "kind_free_text": "bounded stand-in: run-time contracts on the real code over an enumerated family, dense oracles"},
+   {"name": "shadow", "path": "engine/", "serves_properties": shadow_ids, "kind_free_text": "symbolic execution of the unmodified /repo source (shadow import with a symbolic torch model), exhaustive path exploration, obligations discharged by z3 (cvc5 second opinion), sum-normal-form prover for identities between matrix products"},
+   {"name": "loopcut", "path": "engine/loopcut.py", "serves_properties": ["C16", "C13"], "kind_free_text": "mechanical AST loop cutting at sidecar inductive invariants (establish/preserve/use)"},
+   {"name": "audit", "path": "contracts/sh_C12.py, contracts/sh_C15.py", "serves_properties": ["C12", "C15"], "kind_free_text": "obligations regenerated from the AST of the current tree (decorators, cache sites) and discharged exhaustively over finite tables"},
+   {"name": "rtc", "path": "contracts/rtc_*.py, contracts/zoo.py", "serves_properties": [c["property_id"] for c in checks], "kind_free_text": "bounded stand-in: run-time contracts on the real code over an enumerated family, dense oracles; never counted as proved"},
  ],
  "checks": checks,
- "notes": "see DESIGN.md; known findings in known_findings.json",
+ "notes": "see DESIGN.md (sections 10-12 describe what was built); known findings: known_findings.json + contracts/notes/*_known.json; seeded changes: seeded/",
  "not_applicable": na,
 }
 json.dump(m, open(os.path.join(V, "MANIFEST.json"), "w"), indent=1)
-print(len(checks), "checks;", len(na), "not yet claimed")
+print(len(checks), "checks;", len(na), "not claimed")
